@@ -3,8 +3,8 @@
 import json, sys
 pid = sys.argv[1]
 rnd = sys.argv[2] if len(sys.argv) > 2 else "1"
-round2 = rnd in ("2", "3")
-wt = {"1": "/tmp/wt-", "2": "/tmp/wt2-", "3": "/tmp/wt3-"}[rnd] + pid
+round2 = rnd in ("2", "3", "4")
+wt = {"1": "/tmp/wt-", "2": "/tmp/wt2-", "3": "/tmp/wt3-", "4": "/tmp/wt4-"}[rnd] + pid
 prop = None
 for l in open("/verif/properties.jsonl"):
     d = json.loads(l)
@@ -24,7 +24,7 @@ Your job: make a code change under {wt}/include/micm that BREAKS this property, 
  2. the breakage needs something specific to manifest (a particular shape, size, ordering, parameter value, sequence of calls, number of grid cells, vector length ...) - it must NOT show on the inputs the existing tests use, which is why they still pass.
  3. you demonstrate it: a small standalone program using the library's public API (compile with: g++ -std=c++20 -O1 -I{wt}/include demo.cpp -o demo) whose output shows the property violated on your changed tree and holding on the unchanged tree (git stash / git diff to switch).
 
-{"Produce up to THREE different such changes, each in a DIFFERENT function or file, and look beyond the first place that comes to mind: rarely used overloads and option combinations, layout-specific code paths (row-major vs vector-grouped, CSR vs CSC, in-place vs separate factors), builders and setters, the interaction of several calls on the same object (calling something twice, in another order, after an error, with another parameter set), boundary sizes (0, 1, exactly L, L+1, many cells), special values (exact zeros, equal values, negative exponents)." + (" This time, make each change one of these kinds of commit, a different kind for each change: (a) a performance optimisation that caches, memoises, hoists or skips work; (b) a change of an integer or floating type, width or signedness, or of a container type; (c) sharing code between two paths that were separate (row-major / vector-grouped, separate / in-place factors, the two Solve overloads, the two integrators, CSR / CSC) through a new helper; (d) added or moved validation, error handling or early returns; (e) a change to copy / move / assignment / construction order or to what a builder or setter remembers between calls." if rnd == "3" else "") if round2 else "Produce up to TWO different such changes (different mechanism of failure, preferably in different functions)."} For each change k in 1,2{',3' if round2 else ''} write into {wt}/out/k/ :
+{"Produce up to THREE different such changes, each in a DIFFERENT function or file, and look beyond the first place that comes to mind: rarely used overloads and option combinations, layout-specific code paths (row-major vs vector-grouped, CSR vs CSC, in-place vs separate factors), builders and setters, the interaction of several calls on the same object (calling something twice, in another order, after an error, with another parameter set), boundary sizes (0, 1, exactly L, L+1, many cells), special values (exact zeros, equal values, negative exponents)." + (" This time, make each change one of these kinds of commit, a different kind for each change: (a) a performance optimisation that caches, memoises, hoists or skips work; (b) a change of an integer or floating type, width or signedness, or of a container type; (c) sharing code between two paths that were separate (row-major / vector-grouped, separate / in-place factors, the two Solve overloads, the two integrators, CSR / CSC) through a new helper; (d) added or moved validation, error handling or early returns; (e) a change to copy / move / assignment / construction order or to what a builder or setter remembers between calls." if rnd == "3" else (" This time, make each change one of these kinds of commit, a different kind for each change: (f) a loop restructured, unrolled, fused, split or re-ordered for speed or vectorisation (bounds, strides, remainders, first or last iteration); (g) a change to how defaults and special parameter values are handled (a parameter where 0 or an empty list means 'not set', a default changed, a value clamped or normalised on entry, units); (h) an arithmetic expression rewritten into a form that is mathematically equivalent except at the edges (zero or negative operands, division by zero, overflow or underflow, cancellation, NaN comparisons, integer division or modulo, unsigned subtraction); (i) an added overload, convenience wrapper or forwarding function, or a changed signature (by value / by reference, argument order, defaulted arguments), that drops or mis-forwards something; (j) an aliasing or in-place change (reading a value after it has been overwritten, self-assignment, the same object passed for two arguments, swapped source and destination, a reference kept to something that moves)." if rnd == "4" else "")) if round2 else "Produce up to TWO different such changes (different mechanism of failure, preferably in different functions)."} For each change k in 1,2{',3' if round2 else ''} write into {wt}/out/k/ :
    patch.diff  - `git -C {wt} diff -- include` for that change alone (against the unchanged HEAD; it must apply with `git apply` on a clean checkout)
    demo.cpp    - the demonstration program
    demo.txt    - the commands you ran and the program's output on the unchanged tree and on the changed tree
